@@ -13,7 +13,12 @@
 //	       `ctrl.cmd` entry (node/builtin/ctrlcmd.go) and a scripted
 //	       ICtrlCmdListener answering queryretire with "ok" / "no" / no listener
 //	       at all; its `retired` goes through the real app.NotifyServiceRetired
-//	dead - hosted according to the configuration but INodeApp.GetService is nil
+//	nem  - like nok, but the listener does not know queryretire and answers ""
+//	dead - hosted according to the configuration but INodeApp.GetService is nil when the node starts
+//
+// `reset ... lst=<P|M...>`: FilterSelfServices is the REAL node/app.App.FilterSelfServices of an App started on
+// a generated config dir whose node lists the hosted services (P) interleaved with unconfigured names (M).
+// `res i=<k> up=0|1`: INodeApp.GetService(s<k>) starts returning nil / the pid again.
 //
 // `reset ... stop=later|inline1|inline0`: the recording INodeApp completes StopNode through a later
 // `stopdone` op (or never), or inside the StopNode call with true / false.
@@ -33,6 +38,7 @@ import (
 	"log"
 	"log/slog"
 	"os"
+	"path/filepath"
 	"sort"
 	"strconv"
 	"strings"
@@ -49,6 +55,8 @@ import (
 	as "github.com/dfklegend/cell2/actorex/service"
 	messages "github.com/dfklegend/cell2/actorex/service/servicemsgs"
 	"github.com/dfklegend/cell2/apimapper/registry"
+	"github.com/dfklegend/cell2/baseapp"
+	"github.com/dfklegend/cell2/baseapp/interfaces"
 	"github.com/dfklegend/cell2/node/app"
 	"github.com/dfklegend/cell2/node/builtin"
 	"github.com/dfklegend/cell2/node/builtin/msgs"
@@ -98,17 +106,86 @@ type recApp struct {
 	pids  map[string]*actor.PID
 	r     *rec
 	real  *app.App
+	cfg   *app.App        // a started real App whose node lists the services (with gaps): the real FilterSelfServices
+	down  map[string]bool // services GetService cannot resolve right now
 	// how StopNode completes: "later" (op stopdone), "inline1" / "inline0": the callback runs inside
 	// StopNode, before it returns, with true / false (what baseapp does when every module stops synchronously)
 	stopMode string
 }
 
 func (a *recApp) GetActorSystem() *actor.ActorSystem { return a.sys }
-func (a *recApp) GetService(name string) *actor.PID  { return a.pids[name] }
-func (a *recApp) FilterSelfServices(filter func(name string, cfg *config.ServiceInfo)) {
-	for _, n := range a.names {
-		filter(n, &config.ServiceInfo{Type: "verif"})
+func (a *recApp) GetService(name string) *actor.PID {
+	a.r.mu.Lock()
+	defer a.r.mu.Unlock()
+	if a.down[name] {
+		return nil
 	}
+	return a.pids[name]
+}
+
+// FilterSelfServices is the REAL node/app.App.FilterSelfServices of a node whose service list names
+// the hosted services, possibly interleaved with names that have no entry in the services table.
+func (a *recApp) FilterSelfServices(filter func(name string, cfg *config.ServiceInfo)) {
+	a.cfg.FilterSelfServices(filter)
+}
+
+type noopCreator struct{}
+
+func (noopCreator) Create(name string) {}
+
+const launchMode = "c12verif"
+
+var (
+	cfgApps = map[string]*app.App{}
+	cfgInit bool
+)
+
+// cfgApp returns (cached per pattern) a real App prepared and started on a generated configuration
+// directory: one node `n1`, clustering and the App's own node control off, whose `Services:` list is
+// given by the pattern - P: the next hosted service s<i> (configured under `services:`), M: a name
+// without configuration (the App logs and skips it).
+func cfgApp(pattern string) *app.App {
+	if !cfgInit {
+		cfgInit = true
+		nservice.Factory.Register("c12svc", noopCreator{})
+		baseapp.RegisterLaunchFunc(launchMode, func(interfaces.IApp) {})
+	}
+	if a, ok := cfgApps[pattern]; ok {
+		return a
+	}
+	dir, err := os.MkdirTemp("", "c12node")
+	if err != nil {
+		panic(err)
+	}
+	var names, entries []string
+	np, nm := 0, 0
+	for _, ch := range pattern {
+		if ch == 'P' {
+			name := fmt.Sprintf("s%d", np)
+			np++
+			names = append(names, name)
+			entries = append(entries, "  "+name+":\n    Type: c12svc\n")
+		} else {
+			names = append(names, fmt.Sprintf("x%d", nm))
+			nm++
+		}
+	}
+	nodes := "---\nnodes:\n  n1:\n    StartMode: " + launchMode + "\n    Address: 127.0.0.1:39512\n    Services: [" + strings.Join(names, ", ") + "]\nservices:\n" + strings.Join(entries, "")
+	if len(entries) == 0 {
+		nodes += "  unused:\n    Type: c12svc\n"
+	}
+	clusterCfg := "---\nEnable: false\nNodeCtrl: false\nName: c12verif\n"
+	os.WriteFile(filepath.Join(dir, "nodes.yaml"), []byte(nodes), 0o644)
+	os.WriteFile(filepath.Join(dir, "cluster.yaml"), []byte(clusterCfg), 0o644)
+	a := app.NewNode()
+	a.Prepare(dir)
+	a.StartNode("n1", func(bool) {})
+	synctest.Wait()
+	a.GetApp().Cleanup() // stops the App's own run service; FilterSelfServices only reads the configuration
+	synctest.Wait()
+	os.RemoveAll(dir)
+	cfgApps[pattern] = a
+	return a
 }
 
 // UpdateNodeState goes through the REAL node/app.App.UpdateNodeState (app.Node with the
@@ -338,7 +415,7 @@ func (w *world) spawnRaw(name string) (*rawSvc, *actor.PID) {
 	return s, pid
 }
 
-func newWorld(kinds []string, stopMode string, delays []time.Duration) *world {
+func newWorld(kinds []string, stopMode string, delays []time.Duration, pattern string) *world {
 	if cur != nil {
 		cur.teardown()
 	}
@@ -348,19 +425,27 @@ func newWorld(kinds []string, stopMode string, delays []time.Duration) *world {
 	app.Node = app.NewNode()
 	w.ctrl = app.Node.GetNodeCtrl()
 	app.Node.SetProvider(&provStub{r: w.r, delays: delays})
-	w.app = &recApp{sys: w.sys, pids: map[string]*actor.PID{}, r: w.r, stopMode: stopMode, real: app.Node}
+	np := strings.Count(pattern, "P")
+	if np != len(kinds) || strings.Trim(pattern, "PM") != "" {
+		pattern = strings.Repeat("P", len(kinds))
+	}
+	w.app = &recApp{sys: w.sys, pids: map[string]*actor.PID{}, r: w.r, stopMode: stopMode, real: app.Node,
+		cfg: cfgApp(pattern), down: map[string]bool{}}
 	for i, k := range kinds {
 		s := &svc{name: fmt.Sprintf("s%d", i), kind: k}
 		switch k {
 		case "raw":
 			s.raw, s.pid = w.spawnRaw(s.name)
-		case "nok", "nno", "nnl":
+		case "nok", "nno", "nnl", "nem":
 			ns := &nodeSvc{NodeService: nservice.NewService()}
 			ns.SetOwner(ns)
 			if k != "nnl" {
 				ans := "ok"
-				if k == "nno" {
+				switch k {
+				case "nno":
 					ans = "no"
+				case "nem": // a listener that does not know queryretire: falls through to ""
+					ans = ""
 				}
 				ns.SetCtrlCmdListener(&listener{name: s.name, ans: ans, r: w.r})
 			}
@@ -373,15 +458,15 @@ func newWorld(kinds []string, stopMode string, delays []time.Duration) *world {
 			nservice.StartNodeService(w.sys.Root, pid, s.name, &config.ServiceInfo{Type: "verif"})
 			s.node, s.pid = ns, pid
 			w.all = append(w.all, pid)
-		case "dead":
 		default:
+			// dead: a live scripted actor that INodeApp.GetService does not resolve when the node starts
 			s.kind = "dead"
+			s.raw, s.pid = w.spawnRaw(s.name)
+			w.app.down[s.name] = true
 		}
 		w.svcs = append(w.svcs, s)
 		w.app.names = append(w.app.names, s.name)
-		if s.pid != nil {
-			w.app.pids[s.name] = s.pid
-		}
+		w.app.pids[s.name] = s.pid
 	}
 	w.master, w.mpid = w.spawnRaw("master")
 	w.ghost, w.gpid = w.spawnRaw("ghost")
@@ -490,7 +575,8 @@ func exec(op string) string {
 				delays = append(delays, time.Duration(ms)*time.Millisecond)
 			}
 		}
-		w := newWorld(kinds, sm, delays)
+		lst, _ := hx.KV(ws, "lst")
+		w := newWorld(kinds, sm, delays, lst)
 		return w.obs(func(string, bool) string { return "-" })
 	}
 	w := cur
@@ -565,6 +651,15 @@ func exec(op string) string {
 		}
 		settle()
 		return w.obs(func(string, bool) string { return called })
+	case "res":
+		// INodeApp.GetService(s<i>) starts returning nil (up=0) / the pid again (up=1)
+		if s := w.svcAt(ws); s != nil {
+			w.r.mu.Lock()
+			w.app.down[s.name] = hx.KVInt(ws, "up") != 1
+			w.r.mu.Unlock()
+		}
+		settle()
+		return w.obs(func(string, bool) string { return "-" })
 	case "tick":
 		// lets every outstanding request of the admin service time out (30 s)
 		time.Sleep(40 * time.Second)
@@ -576,7 +671,7 @@ func exec(op string) string {
 
 // ---------------------------------------------------------------- generator
 
-var oddKinds = []string{"nno", "nnl", "dead", "nok", "raw"}
+var oddKinds = []string{"nno", "nnl", "nem", "dead", "nok", "raw"}
 
 type gen struct{ h *hx.T }
 
@@ -606,6 +701,16 @@ func (g *gen) reset() (string, []string) {
 	mode := []string{"later", "later", "inline1", "inline1", "inline0"}[h.R.Intn(5)]
 	h.Count("reset.stop-" + mode)
 	op := "reset k=" + strings.Join(ks, ",") + " stop=" + mode
+	// the node's service list as the real App reads it: unconfigured names first / in the middle / last
+	if h.R.Intn(3) == 0 {
+		pat := []byte(strings.Repeat("P", n))
+		for k := 1 + h.R.Intn(2); k > 0; k-- {
+			at := h.R.Intn(len(pat) + 1)
+			pat = append(pat[:at], append([]byte{'M'}, pat[at:]...)...)
+		}
+		h.Count("reset.list-with-unconfigured")
+		op += " lst=" + string(pat)
+	}
 	// provider latency per publication (ms of virtual time): none / random / first slow, later fast
 	switch h.R.Intn(4) {
 	case 0:
@@ -669,8 +774,11 @@ func (g *gen) op(n int) string {
 	case 18:
 		return "cmd " + []string{"web_nodes", "nosuch", "RETIRE", "retired", "queryretire", "stat"}[h.R.Intn(6)]
 	}
-	if h.R.Intn(4) == 0 {
+	switch h.R.Intn(4) {
+	case 0:
 		return "tick"
+	case 1:
+		return fmt.Sprintf("res i=%s up=%d", g.idx(n), h.R.Intn(2))
 	}
 	return "cmd retire"
 }
@@ -694,8 +802,21 @@ func (g *gen) guided(kinds []string) []string {
 		}
 	}
 	noise()
+	// a hosted service that the node cannot resolve at retire time (present at probe time), back later
+	down := -1
+	if n > 0 && h.R.Intn(4) == 0 {
+		down = h.R.Intn(n)
+		h.Count("guided.unresolvable-at-retire")
+		ops = append(ops, fmt.Sprintf("res i=%d up=0", down))
+		if n > 1 && h.R.Intn(3) == 0 {
+			ops = append(ops, fmt.Sprintf("res i=%d up=0", (down+1)%n))
+		}
+	}
 	if !skip() {
 		ops = append(ops, "cmd "+[]string{"retire", "retire", "web_retire"}[h.R.Intn(3)])
+	}
+	if down >= 0 && h.R.Intn(2) == 0 {
+		ops = append(ops, fmt.Sprintf("res i=%d up=1", down), "cmd "+[]string{"retire", "web_retire"}[h.R.Intn(2)])
 	}
 	for _, i := range h.R.Perm(n) {
 		noise()
@@ -824,6 +945,9 @@ func TestExhaustive(t *testing.T) {
 		enum("raw-raw-inline1", "reset k=raw,raw stop=inline1", core, hx.EnvInt("VERIF_EXH_LEN3", 5))
 		enum("raw-nok-inline1", "reset k=raw,nok stop=inline1", full, hx.EnvInt("VERIF_EXH_LEN2", 4))
 		enum("raw-inline0", "reset k=raw stop=inline0", full, hx.EnvInt("VERIF_EXH_LEN2", 4))
+		resLetters := append(append([]string{}, core[:6]...), "res i=0 up=0", "res i=0 up=1", "res i=1 up=0", "cmd web_retire")
+		enum("raw-raw-resolve", "reset k=raw,raw lst=PMP", resLetters, hx.EnvInt("VERIF_EXH_LEN3", 5))
+		enum("nok-nem", "reset k=nok,nem lst=MPP", full, 3)
 		enum("raw-inline1-slowfirst", "reset k=raw stop=inline1 pd=300,200,100,0,0,0", full, hx.EnvInt("VERIF_EXH_LEN2", 4))
 		h.Close()
 		os.Stdout.Sync()
